@@ -31,6 +31,9 @@ KINDS = ("p", "q", "u", "d1", "dE", "dL", "k", "dk", "dT", "kk")
 #  kinds that only make sense over the high-byte text (TEXT_HI): uL Latin-1 letters in the other case (same length, NOT equal under
 #  ASCII case folding -> decoded), dS the covered text with the bytes that are invalid UTF-8 stripped, dB the covered text behind a UTF-8 BOM
 KINDS_HI = ("p", "u", "uL", "dS", "dB", "d1")
+#  e   a result with an EMPTY value (a decoder that decoded to nothing): the engine discards it before anything else, so it must not
+#      open, close or shadow anything.  Only used by properties stated for "all registries" (C05); C06 excludes empty values by statement.
+KINDS_E = ("p", "q", "d1", "k", "e")
 TEXT_HI = b"\xe9b\xff\xc9d\xfe"
 MODES = ("r0", "rp", "rd", "rk")
 #  r0 nothing is found in decoded values           rp one plain hit on the first byte of any decoded value
@@ -74,6 +77,8 @@ def spec(T: bytes, a: int, b: int, kind: str):
         return ("s", v, "", a, b, [])
     if kind == "dB":
         return ("b", b"\xef\xbb\xbf" + cov, "bom", a, b, [])
+    if kind == "e":
+        return ("e", b"", "e", a, b, [])
     if kind == "kk":
         return ("k", cov, "", a, b, [("kc", b"qr", "", 0, 1, [("kg", b"g", "", 0, 1, [])])])
     raise ValueError(kind)
